@@ -56,6 +56,15 @@ type replayFile struct {
 	Scenario  any            `json:"scenario,omitempty"`
 	RaceText  []string       `json:"race_reports,omitempty"`
 	Note      string         `json:"note,omitempty"`
+	// Slice is set for process-history violations: the run must be preceded
+	// by the earlier runs of the same worker slice to reproduce.
+	Slice *sliceInfo `json:"worker_slice,omitempty"`
+}
+
+type sliceInfo struct {
+	Tier   string `json:"tier"`
+	Stride uint64 `json:"stride"`
+	Offset uint64 `json:"offset"`
 }
 
 func fatal2(format string, args ...any) {
@@ -221,6 +230,16 @@ func tierFor(prop, tier string) tierCfg {
 		if n, err := strconv.ParseUint(v, 10, 64); err == nil {
 			c.runs = n
 		}
+	}
+	// sample enough detailed runs (with tapes) for the fresh-process comparison
+	want := uint64(48)
+	if tier == "thorough" {
+		want = 300
+	}
+	if c.runs/want > 0 {
+		c.detailEvery = c.runs / want
+	} else {
+		c.detailEvery = 1
 	}
 	if v := os.Getenv("VERIF_WORKERS"); v != "" {
 		if n, err := strconv.Atoi(v); err == nil && n > 0 {
@@ -461,6 +480,62 @@ func shrink(b *build, rf *replayFile, kind string, want map[string]bool, budget 
 	return &out, tried
 }
 
+// ---------------------------------------------------------------- process-history oracle
+
+// crossProcess replays a sample of the batch's runs, each alone in a fresh
+// process, and compares what they observed (digest) with what the same tape
+// observed inside a long-lived worker after many other runs. A difference
+// means some process-global state carried over between runs.
+func crossProcess(b *build, prop, tier string, seed uint64, tc tierCfg, repo string, bt *batch, max int) (checked int, viols []*resLine, files []*replayFile) {
+	var cands []*resLine
+	for i := range bt.lines {
+		l := &bt.lines[i]
+		if l.Status == "ok" && len(l.Tape) > 0 && len(l.Violations) == 0 && l.Digest != "" {
+			cands = append(cands, l)
+		}
+	}
+	// prefer late runs of each worker (most history behind them)
+	sort.Slice(cands, func(i, j int) bool { return cands[i].Index > cands[j].Index })
+	if len(cands) > max {
+		cands = cands[:max]
+	}
+	type out struct {
+		l  *resLine
+		fl *resLine
+	}
+	ch := make(chan out, len(cands))
+	sem := make(chan struct{}, 16)
+	for i, l := range cands {
+		go func(i int, l *resLine) {
+			sem <- struct{}{}
+			defer func() { <-sem }()
+			rf := &replayFile{Property: prop, Seed: seed, RunIndex: l.Index, Opts: optsFor(tier, repo), Tape: l.Tape}
+			fl, err := replayTape(b, rf, fmt.Sprintf("xp%d", i))
+			if err != nil {
+				fl = nil
+			}
+			ch <- out{l, fl}
+		}(i, l)
+	}
+	for range cands {
+		o := <-ch
+		if o.fl == nil || o.fl.Status != "ok" {
+			continue
+		}
+		checked++
+		if o.fl.Digest != o.l.Digest {
+			v := rt.Violation{Kind: "process-history", Key: "process-history:" + o.l.Config, Step: 0,
+				Detail: fmt.Sprintf("run %d observed digest %s inside a worker that had executed earlier runs, but %s when its tape is replayed alone in a fresh process: results depend on what ran earlier in the process (process-global state)", o.l.Index, o.l.Digest, o.fl.Digest)}
+			o.l.Violations = append(o.l.Violations, v)
+			viols = append(viols, o.l)
+			files = append(files, &replayFile{Property: prop, Seed: seed, RunIndex: o.l.Index, Opts: optsFor(tier, repo), Tape: o.l.Tape,
+				Violation: []rt.Violation{v}, Scenario: o.l.Scenario, Slice: &sliceInfo{Tier: tier, Stride: uint64(tc.workers), Offset: o.l.Index % uint64(tc.workers)},
+				Note: "replay re-executes the worker slice up to this run and compares with a fresh-process replay of the tape"})
+		}
+	}
+	return
+}
+
 // ---------------------------------------------------------------- evidence
 
 func writeEvidence(prop, tier string, seed uint64, b *build, bt *batch, tc tierCfg, nviol int, knownHit []string, extra map[string]any) error {
@@ -630,6 +705,15 @@ func cmdCheck(prop, tier string, seed uint64, repo string) int {
 		return 2
 	}
 	kn := loadKnown()
+	xpMax := 32
+	if tier == "thorough" {
+		xpMax = 256
+	}
+	xpChecked, _, xpFiles := crossProcess(b, prop, tier, seed, tc, repo, bt, xpMax)
+	xpByIndex := map[uint64]*replayFile{}
+	for _, f := range xpFiles {
+		xpByIndex[f.RunIndex] = f
+	}
 	type hit struct {
 		line *resLine
 		v    rt.Violation
@@ -688,6 +772,15 @@ func cmdCheck(prop, tier string, seed uint64, repo string) int {
 			}
 			n++
 			h := newByKey[key]
+			if h.v.Kind == "process-history" {
+				dir := filepath.Join(outDir, "replays", prop)
+				os.MkdirAll(dir, 0o755)
+				p := filepath.Join(dir, slug(key)+".json")
+				bs, _ := json.MarshalIndent(xpByIndex[h.line.Index], "", " ")
+				os.WriteFile(p, bs, 0o644)
+				fmt.Printf("VIOLATION property=%s replay=%s\n  kind=%s key=%s run=%d\n  %s\n", prop, p, h.v.Kind, key, h.line.Index, h.v.Detail)
+				continue
+			}
 			rf := &replayFile{Property: prop, Seed: seed, RunIndex: h.line.Index, Opts: optsFor(tier, repo), Tape: h.line.Tape}
 			want := keysOf(h.line.Violations, h.v.Kind)
 			for k := range want {
@@ -726,6 +819,7 @@ func cmdCheck(prop, tier string, seed uint64, repo string) int {
 		}
 		extra["new_violation_keys"] = newKeys
 	}
+	extra["fresh_process_replays_compared"] = xpChecked
 	if err := writeEvidence(prop, tier, seed, b, bt, tc, len(newKeys), knownHit, extra); err != nil {
 		fmt.Printf("INFRASTRUCTURE-ERROR writing evidence: %v\n", err)
 		return 2
@@ -789,6 +883,25 @@ func cmdReplay(path, repo string) int {
 	}
 	b := buildWorker(repo)
 	defer b.cleanup()
+	if rf.Slice != nil {
+		args := []string{"-prop", rf.Property, "-seed", strconv.FormatUint(rf.Seed, 10), "-tier", rf.Slice.Tier, "-from", "0", "-to", strconv.FormatUint(rf.RunIndex+1, 10),
+			"-stride", strconv.FormatUint(rf.Slice.Stride, 10), "-offset", strconv.FormatUint(rf.Slice.Offset, 10), "-repo", repo}
+		lines, _, err := runWorker(b, args, "slice", 0, time.Hour)
+		if err != nil || len(lines) == 0 {
+			fatal2("INFRASTRUCTURE-ERROR %v", err)
+		}
+		inSlice := lines[len(lines)-1]
+		fresh, err := replayTape(b, &rf, "fresh")
+		if err != nil {
+			fatal2("INFRASTRUCTURE-ERROR %v", err)
+		}
+		if inSlice.Index == rf.RunIndex && inSlice.Digest != fresh.Digest {
+			fmt.Printf("VIOLATION property=%s replay=%s\n  kind=process-history key=%s\n  run %d: digest %s after the earlier runs of its worker slice, %s alone in a fresh process\n", rf.Property, path, rf.Violation[0].Key, rf.RunIndex, inSlice.Digest, fresh.Digest)
+			return 1
+		}
+		fmt.Printf("REPLAY-CLEAN property=%s replay=%s: the run observes the same in its worker slice and alone\n", rf.Property, path)
+		return 0
+	}
 	want := map[string]bool{}
 	kind := ""
 	for _, v := range rf.Violation {
@@ -856,7 +969,7 @@ func cmdDeterminism(prop string, seed uint64, n uint64, repo string) int {
 			}
 		}
 		sort.Strings(ks)
-		return sigT{l.Status, l.SchedHash, l.Distinct, strings.Join(ks, ",") + race, l.TapeLen}
+		return sigT{l.Status, l.SchedHash, l.Distinct + "/" + l.Digest, strings.Join(ks, ",") + race, l.TapeLen}
 	}
 	var ref []sigT
 	bad := 0
